@@ -6,7 +6,7 @@ D=$(mktemp -d /tmp/fc_XXXXXX)
 cp -r /repo/pyiga /repo/scripts $D/ 2>/dev/null
 rm -rf $D/pyiga/*.so $D/pyiga/__pycache__ $D/build
 if ! (cd $D && patch -p1 -s -i /tmp/wt/$P/$V.patch >/dev/null 2>&1); then echo "$P $V: PATCH FAILED"; rm -rf $D; exit 9; fi
-/verif/check $WHAT --repo $D --no-write > $D/out.txt 2>&1; code=$?
+${CHECK:-/verif/check} $WHAT --repo $D --no-write > $D/out.txt 2>&1; code=$?
 rules=$(grep -B1 '^VIOLATION' $D/out.txt | grep -oE '^[^ ]+ R[0-9]+\.[0-9G]+' | awk '{print $2}' | sort -u | tr '\n' ' ')
 echo "$P $V: exit=$code rules=[$rules]"
 grep -B1 '^VIOLATION' $D/out.txt | grep -v '^VIOLATION\|^--' | cut -c1-230 | head -3
